@@ -109,15 +109,37 @@ func vhC02Shapes(k int) []vhPgon {
 	}
 }
 
-const vhC02NShapes = 15
+// vhC02Tail: an open two-point subpath following the closed contours of some shapes (it fills
+// nothing, so the region is that of the closed contours).
+func vhC02Tail(k int) (vhPgon, []vhPgon) {
+	switch k {
+	case 15: // stray open segment beside a triangle
+		return vhPgon{{6, 1}, {8, 3}}, []vhPgon{{{0, 0}, {5, 5}, {0, 5}}}
+	case 16: // open segment lying on an edge of the triangle
+		return vhPgon{{0, 0}, {3, 3}}, []vhPgon{{{0, 0}, {5, 5}, {0, 5}}}
+	case 17: // open segment crossing the triangle
+		return vhPgon{{-1, 3}, {4, 4.5}}, []vhPgon{{{0, 0}, {5, 5}, {0, 5}}}
+	}
+	return nil, nil
+}
+
+const vhC02NShapes = 18
 
 // C02: Settle(rule) fills exactly what the input fills under the rule; output windings are 0/1
 // and every output contour's orientation makes NonZero, EvenOdd and Positive agree.
 func VH_C02_settle_region_Q() {
 	shape := vChoose(0, vhC02NShapes-1)
-	p := vhPgonPath(vhC02Shapes(shape))
+	var p *Path
+	if tail, closed := vhC02Tail(shape); tail != nil {
+		p = vhPgonPath(closed)
+		p.MoveTo(tail[0][0], tail[0][1])
+		p.LineTo(tail[1][0], tail[1][1])
+	} else {
+		p = vhPgonPath(vhC02Shapes(shape))
+	}
 	before := vhCopyData(p.d)
 	rule := FillRule(vChoose(0, 3))
+	vKnown("D74", shape == 16)
 	// the three public entry points must agree
 	var r *Path
 	switch vChoose(0, 2) {
